@@ -19,6 +19,14 @@
 (*            "S"  IN-subquery (true)                                      *)
 (*   targets  "B" balance   "P" pause point   "S" IN-subquery              *)
 (*            "A" sum(position) (only in aggregate programs)               *)
+(*            "XB" g(x, balance)  "BX" g(balance, x): balance is an operand *)
+(*                 of a FUNCTION call next to an operand x that is NULL on *)
+(*                 some rows (the call is then NULL)                       *)
+(*            "XL" x <op> e(balance): balance under a SHORT-CIRCUIT        *)
+(*                 operator (AND, OR, coalesce, a binary operator) whose   *)
+(*                 other operand decides the result on some rows           *)
+(*   nul      sequence of BOOLEAN (only read for XB / BX / XL): on posting *)
+(*            i the operand x is NULL / decides                            *)
 (*   subbal   the subquery's own scan consults balance in every row        *)
 (*   agg      aggregate query: one output row, sum(position) of selection  *)
 (*                                                                         *)
@@ -31,6 +39,17 @@
 (*                  non-vacuity run (TLC must reject it) and to recognise  *)
 (*                  a re-introduction of the defect                        *)
 (*            "none"                    no memo at all (a realistic edit)  *)
+(* ArgEval    how a function call evaluates its operands (query_env.py,   *)
+(*            function(): Func.__call__)                                   *)
+(*            "all operands, then the NULL test"   what the code does      *)
+(*            "stop at the first NULL operand"     a realistic edit: the   *)
+(*                  operands after a NULL one are never evaluated -- the   *)
+(*                  balance accessor among them.  Non-vacuity run.         *)
+(*            A definition (not a CONSTANT): configurations override it.   *)
+(*            Short-circuit operators (query_compile.py EvalAnd, EvalOr,   *)
+(*            EvalCoalesce, EvalBinaryOp) do NOT evaluate the operands     *)
+(*            after the deciding one: modelled as shipped; TLC rejects it  *)
+(*            (MC_Balance_C12_lazy.cfg), a known finding.                  *)
 (* Split      TRUE: an evaluation of the column is three steps (lookup,    *)
 (*            compute, store), as the C cache wrapper really interleaves   *)
 (***************************************************************************)
@@ -40,6 +59,14 @@ CONSTANTS Threads, CacheMode, Split
 
 Shared == "process-wide one entry"
 PerCtx == "per row context"
+AllOperands == "all operands, then the NULL test"
+StopAtNull == "stop at the first NULL operand"
+ArgEval == AllOperands
+
+(* what a NULL target value looks like among inventories (trace files write it the same way) *)
+NullInv == [k \in {<<"NULL", NoCost>>} |-> 1]
+Nested == {"XB", "BX", "XL"}
+IsBalT(a) == a = "B" \/ a \in Nested
 
 VARIABLES
     prog,       \* [Threads -> program]
@@ -149,6 +176,29 @@ Store(t) ==
     /\ Deliver(t, ctx[t].bal)
     /\ UNCHANGED <<prog, out, subdone, consulted>>
 
+(* balance as an operand of an enclosing expression whose other operand x is NULL (decides) on some rows.
+   A function call evaluates its operands left to right and tests for NULL afterwards; a short-circuit operator
+   returns as soon as x has decided and never calls the accessor in that row. *)
+NulHere(t) == prog[t].nul[ctx[t].rowid]
+SkipsAccessor(t) ==
+    \/ Atom(t) = "XL" /\ NulHere(t)
+    \/ Atom(t) = "XB" /\ NulHere(t) /\ ArgEval = StopAtNull
+EvalNested(t) ==
+    /\ pc[t].ph = "target" /\ Atom(t) \in Nested
+    /\ IF SkipsAccessor(t)
+       THEN /\ Deliver(t, NullInv)
+            /\ UNCHANGED <<ctx, cache, consulted>>
+       ELSE /\ consulted' = [consulted EXCEPT ![t] = @ \cup {ctx[t].rowid}]
+            /\ IF Hit(t)
+               THEN /\ Deliver(t, IF NulHere(t) THEN NullInv ELSE Memo(t))
+                    /\ UNCHANGED <<ctx, cache>>
+               ELSE /\ Deliver(t, IF NulHere(t) THEN NullInv ELSE Added(t))
+                    /\ ctx' = [ctx EXCEPT ![t].bal = Added(t),
+                                          ![t].mrow = IF CacheMode = PerCtx THEN ctx[t].rowid ELSE @,
+                                          ![t].mval = IF CacheMode = PerCtx THEN Added(t) ELSE @]
+                    /\ StoreMemo(t, Added(t))
+    /\ UNCHANGED <<prog, out, subdone>>
+
 (* the row filter *)
 Mask(t) ==
     /\ pc[t].ph = "where" /\ Atom(t) = "M"
@@ -189,7 +239,7 @@ EmitRow(t) ==
     /\ UNCHANGED <<prog, subdone, cache, consulted>>
 
 Step(t) ==
-    \/ NextRow(t) \/ Finish(t) \/ EvalBalance(t) \/ Lookup(t) \/ Compute(t) \/ Store(t)
+    \/ NextRow(t) \/ Finish(t) \/ EvalBalance(t) \/ Lookup(t) \/ Compute(t) \/ Store(t) \/ EvalNested(t)
     \/ Mask(t) \/ Yield(t) \/ Interpose(t) \/ UpdateAgg(t) \/ EmitRow(t)
 Next == \E t \in Threads : Step(t)
 Done(t) == pc[t].ph = "done"
@@ -200,7 +250,12 @@ YieldStep(t) == InRow(t) /\ Atom(t) = "P"
 -----------------------------------------------------------------------------
 (* THE PROPERTY, declaratively.  C12: the value delivered for a selected posting is the inventory sum of
    `position` over the postings for which balance has been consulted up to and including it. *)
-NB(P) == Cardinality({j \in 1..Len(P.targets) : P.targets[j] = "B"})
+NB(P) == Cardinality({j \in 1..Len(P.targets) : IsBalT(P.targets[j])})
+(* the j-th target that references balance, and what it shows on posting r when the balance there is s: a reference
+   under an enclosing expression shows NULL where the other operand is NULL (decides) -- the balance ITSELF is the
+   same for every reference, wherever it sits in the target list and whatever encloses it *)
+KindOf(P, j) == SelectSeq(P.targets, IsBalT)[j]
+Shown(P, j, r, s) == IF KindOf(P, j) \in Nested /\ P.nul[r] THEN NullInv ELSE s
 ConsultsInWhere(P) == \E j \in 1..Len(P.where) : IsBal(P.where[j])
 HasMask(P) == \E j \in 1..Len(P.where) : P.where[j] = "M"
 
@@ -221,7 +276,7 @@ RECURSIVE SerialFrom(_, _, _)
 SerialFrom(P, r, s) ==
     IF r > Len(P.ledger) THEN <<>>
     ELSE LET res == RowResult(P, r, s)
-         IN (IF res.sel THEN << [rowid |-> r, vals |-> [j \in 1..NB(P) |-> res.s]] >> ELSE <<>>)
+         IN (IF res.sel THEN << [rowid |-> r, vals |-> [j \in 1..NB(P) |-> Shown(P, j, r, res.s)]] >> ELSE <<>>)
             \o SerialFrom(P, r + 1, res.s)
 RECURSIVE SelectedFrom(_, _, _)
 SelectedFrom(P, r, s) ==     \* rowids of the qualifying rows
@@ -252,8 +307,9 @@ ConsultedInv ==
     \A t \in Threads :
         /\ ~prog[t].agg =>
              \A n \in 1..Len(out[t]) : \A j \in 1..Len(out[t][n].vals) :
-                 out[t][n].vals[j] = SumIdx(prog[t].ledger, {x \in consulted[t] : x <= out[t][n].rowid})
-        /\ \A j \in 1..Len(cur[t]) : cur[t][j] = SumIdx(prog[t].ledger, consulted[t])
+                 out[t][n].vals[j] = Shown(prog[t], j, out[t][n].rowid,
+                                           SumIdx(prog[t].ledger, {x \in consulted[t] : x <= out[t][n].rowid}))
+        /\ \A j \in 1..Len(cur[t]) : cur[t][j] = Shown(prog[t], j, ctx[t].rowid, SumIdx(prog[t].ledger, consulted[t]))
 (* ... hence: no condition consults it => prefix sum over the selection, independent of the number of references *)
 PrefixSumInv ==
     \A t \in Threads : (~prog[t].agg /\ ~ConsultsInWhere(prog[t])) =>
@@ -262,19 +318,21 @@ PrefixSumInv ==
         IN \A n \in 1..Len(out[t]) :
               /\ out[t][n].rowid \in Sel
               /\ Len(out[t][n].vals) = NB(P)
-              /\ \A j \in 1..NB(P) : out[t][n].vals[j] = SumIdx(P.ledger, {r \in Sel : r <= out[t][n].rowid})
+              /\ \A j \in 1..NB(P) : out[t][n].vals[j] =
+                     Shown(P, j, out[t][n].rowid, SumIdx(P.ledger, {r \in Sel : r <= out[t][n].rowid}))
 (* ... the last balance is sum(position) of the same selection, and every selected posting has its row *)
 LastInv ==
     \A t \in Threads : (Done(t) /\ ~prog[t].agg /\ ~ConsultsInWhere(prog[t])) =>
         LET P == prog[t]
             Sel == {r \in 1..Len(P.ledger) : ~HasMask(P) \/ P.mask[r]}
         IN /\ {out[t][n].rowid : n \in 1..Len(out[t])} = Sel /\ Len(out[t]) = Cardinality(Sel)
-           /\ (NB(P) > 0 /\ Sel # {}) => out[t][Len(out[t])].vals[1] = SumIdx(P.ledger, Sel)
+           /\ (NB(P) > 0 /\ Sel # {}) =>
+                 \A j \in 1..NB(P) : out[t][Len(out[t])].vals[j] = Shown(P, j, out[t][Len(out[t])].rowid, SumIdx(P.ledger, Sel))
 (* ... a condition that consults it first: the sum over all postings scanned so far *)
 ScannedInv ==
     \A t \in Threads : (~prog[t].agg /\ Len(prog[t].where) > 0 /\ IsBal(prog[t].where[1])) =>
         \A n \in 1..Len(out[t]) : \A j \in 1..Len(out[t][n].vals) :
-            out[t][n].vals[j] = SumIdx(prog[t].ledger, 1..out[t][n].rowid)
+            out[t][n].vals[j] = Shown(prog[t], j, out[t][n].rowid, SumIdx(prog[t].ledger, 1..out[t][n].rowid))
 
 (* C12 second formulation and C20: what a thread has emitted is what the query returns when it runs alone *)
 SerialInv ==
